@@ -93,6 +93,8 @@ class Check:
         elif sub == "flip":
             case["bitseed"] = rng.getrandbits(30)
             case["target"] = rng.choice(arcs)
+            # sometimes every byte of the archive (local headers and data too), not only the central directory
+            case["all_bytes"] = rng.random() < (0.5 if tier == "thorough" else 0.2)
         elif sub == "trunc":
             case["target"] = rng.choice(arcs)
         else:
@@ -300,7 +302,7 @@ class Check:
                 cr = self.central_range(good)
                 if cr is None:
                     raise CaseInvalid("no end record")
-                for off in range(cr[0], cr[1]):
+                for off in range(0 if case.get("all_bytes") else cr[0], cr[1]):
                     variants.append(("flip", off, 0xFF))
                     variants.append(("flip", off, 1 << rng_.randrange(8)))
             path_abs = os.path.join(sb.root, target)
